@@ -797,9 +797,10 @@ func (e *dExpr) skeleton() string {
 // features lists the documented constructs a (shrunk) string still uses.
 type features struct {
 	or, group, neg, caseMod, typeMod, quoted, escape, upper, nonASCIIUpper, regexOps, flagGroup bool
-	fields                                                                                     []string // prefixes as written
-	bare                                                                                       int
-	atoms                                                                                      int
+	fields                                                                                      []string // prefixes as written
+	mods                                                                                        []string // case:/type: modifiers as written
+	bare                                                                                        int
+	atoms                                                                                       int
 }
 
 func (g *dGroup) collect(f *features) {
@@ -811,6 +812,13 @@ func (g *dGroup) collect(f *features) {
 	}
 	if g.typeSeen {
 		f.typeMod = true
+	}
+	for _, cl := range g.all {
+		for _, e := range cl {
+			if e.kind == kField && (e.field == "case" || e.field == "type") {
+				f.mods = append(f.mods, e.written+e.pat)
+			}
+		}
 	}
 	for _, cl := range g.clauses {
 		for _, e := range cl {
